@@ -466,6 +466,91 @@ impl Family for CompletionWalks {
     }
 }
 
+/// The callback reports its completions (explicitly, or by dropping the writer behind complete_one /
+/// a zero-column set) and then returns Err: what it reported must have reached the transport before
+/// run_on returns the callback's error.
+struct CompletedThenFailed;
+const CTF: [&str; 5] = ["completed(r, i)", "complete_one(r, i), writer dropped", "complete_one(1, 2), complete_one(r, i), writer dropped", "zero-column set of r rows, writer dropped", "complete_one(r, i), finish_one of a zero-column set of 3 rows, dropped"];
+impl CompletedThenFailed {
+    const VALS: [u64; 6] = [0, 7, 251, 65_536, 1 << 24, u64::MAX];
+    fn case(idx: u64) -> (usize, u64, u64, bool) {
+        let d = digits(idx, &[CTF.len() as u64, 6, 6, 2]);
+        (d[0] as usize, Self::VALS[d[1] as usize], Self::VALS[d[2] as usize], d[3] == 1)
+    }
+}
+impl Family for CompletedThenFailed {
+    fn name(&self) -> String {
+        "completions-reported-then-the-callback-fails".into()
+    }
+    fn len(&self) -> u64 {
+        (CTF.len() * 36 * 2) as u64
+    }
+    fn run(&self, idx: u64, st: &mut Stats) -> Result<(), Violation> {
+        let (ctx, r, i, bin) = Self::case(idx);
+        st.nontrivial += 1;
+        st.bump("completed_then_failed");
+        let c0: Arc<Vec<msql_srv::Column>> = Arc::new(Vec::new());
+        let rows = (r % 300) as usize;
+        let (prog, want): (Vec<WOp>, Vec<(u64, u64)>) = match ctx {
+            0 => (vec![WOp::Completed(r, i)], vec![(r, i)]),
+            1 => (vec![WOp::CompleteOne(r, i), WOp::Drop], vec![(r, i)]),
+            2 => (vec![WOp::CompleteOne(1, 2), WOp::CompleteOne(r, i), WOp::Drop], vec![(1, 2), (r, i)]),
+            3 => {
+                let mut p = vec![WOp::Start(c0.clone())];
+                for _ in 0..rows {
+                    p.push(WOp::EndRow);
+                }
+                p.push(WOp::Drop);
+                (p, vec![(rows as u64, 0)])
+            }
+            _ => (vec![WOp::CompleteOne(r, i), WOp::Start(c0.clone()), WOp::EndRow, WOp::EndRow, WOp::EndRow, WOp::FinishOne, WOp::Drop], vec![(r, i), (3, 0)]),
+        };
+        let mut cmds = Vec::new();
+        if bin {
+            cmds.push(ClientCmd::new(with_byte(COM_STMT_PREPARE, b"id=1 p=0")));
+            cmds.push(ClientCmd::new(cmd_execute(1, 0, 1, &[])));
+        } else {
+            cmds.push(q(b"x"));
+        }
+        cmds.push(ping());
+        let conv = Conv::new(cmds);
+        let s = conv.stream();
+        let stream = Arc::new(s.bytes);
+        let mut sim = sim_for(&stream, vec![]);
+        sim.log_ops = false;
+        let prog = Arc::new(prog);
+        let behave = Box::new(move |_: usize, cb: &Cb| match cb {
+            Cb::Prepare(_) => Behavior::PrepReply { id: 1, params: param_cols(0), cols: param_cols(0) },
+            Cb::Query(_) | Cb::Execute { .. } => Behavior::Prog(prog.clone()),
+            _ => Behavior::Silent,
+        });
+        let mut cfg = ConnCfg::new(behave);
+        cfg.fail_after = Some((if bin { 1 } else { 0 }, 777));
+        let o = run_conn(sim, cfg);
+        st.transitions += 1;
+        let what = format!("{} (r = {}, i = {}, {}), then the callback returns Err", CTF[ctx], r, i, if bin { "binary" } else { "text" });
+        if let ConnResult::Panic(l, m) = &o.res {
+            return Err(Violation::new(panic_key(l, m), format!("{}: run_on panicked at {}: {}", what, l, m)));
+        }
+        if o.res != ConnResult::ErrMarker(777) {
+            return Err(Violation::new("late-shim-error-not-returned", format!("{}: run_on returned {}", what, o.res.short())));
+        }
+        // everything the callback reported must be on the transport (written; a flush is not owed
+        // once the connection ends with an error)
+        let k = conv.cmds.len() - 2;
+        let d = decode_all(&o.sim.out, &conv, &s.last_seq, k + 1, false).map_err(|e| Violation::new("reported-completion-did-not-arrive", format!("{}: {}", what, e)))?;
+        let got: Vec<(u64, u64)> = d.replies[k].iter().filter_map(|u| if let Unit::Ok { rows, id, .. } = u { Some((*rows, *id)) } else { None }).collect();
+        if got != want {
+            return Err(Violation::new("reported-completion-did-not-arrive", format!("{}: reported {:?}, on the transport {:?}", what, want, got)));
+        }
+        Ok(())
+    }
+    fn describe(&self, idx: u64) -> J {
+        let (ctx, r, i, bin) = Self::case(idx);
+        json!({"program": CTF[ctx], "r": r, "i": i, "binary": bin, "then": "the callback returns Err"})
+    }
+}
+
 pub fn build(quick: bool) -> Check {
     let vals = lattice();
     // every value of one component in a dense range (all of the 1- and 3-byte classes' small end,
@@ -481,7 +566,7 @@ pub fn build(quick: bool) -> Check {
     Check {
         id: "C14",
         level: "model_checking",
-        rule: format!("(rows, last_insert_id) over a lattice of {} values per component (0, 1, 250..256, 2^16, 2^24, 2^32, 2^63, 2^64-1, every 2^k and 2^k +- 1) squared x 4 contexts (completed; complete_one first/middle; completed after complete_one) x text/binary; every value 0..1100 (thorough: 0..70000 and 2^24+-300) of one component against 0, 7, 251, 65536, 2^24, 2^64-1 of the other, both ways round; zero-column resultsets with every row count 0..300 and 65535, 65536, 70000 via end_row, write_row (empty and with cells), ignored write_col (values and NULLs), and as the second of two zero-column sets; every sequence of <= 5 (thorough: 6) exchanges on one connection over 16 kinds (completions direct / chained / as zero-column sets in text and binary, ordinary resultsets, errors at once, after a completion and at the end of a zero-column set, PREPARE, PING, INIT_DB) with position-dependent counts from every length class; scripted walks of 1031 and 66000 (thorough: 140000) completions of those kinds; a 5000- or 70000-byte row, every number <= 600 (1300) of quiet exchanges, then completed(2^64-1, 1). Oracle: refwire's length-encoded-integer decoding of the OK packet, and mysql_common's OkPacket. Non-trivial = a component beyond the one-byte class.", nv),
+        rule: format!("(rows, last_insert_id) over a lattice of {} values per component (0, 1, 250..256, 2^16, 2^24, 2^32, 2^63, 2^64-1, every 2^k and 2^k +- 1) squared x 4 contexts (completed; complete_one first/middle; completed after complete_one) x text/binary; every value 0..1100 (thorough: 0..70000 and 2^24+-300) of one component against 0, 7, 251, 65536, 2^24, 2^64-1 of the other, both ways round; zero-column resultsets with every row count 0..300 and 65535, 65536, 70000 via end_row, write_row (empty and with cells), ignored write_col (values and NULLs), and as the second of two zero-column sets; completions reported (explicitly or by dropping the writer) by a callback that then returns Err; every sequence of <= 5 (thorough: 6) exchanges on one connection over 16 kinds (completions direct / chained / as zero-column sets in text and binary, ordinary resultsets, errors at once, after a completion and at the end of a zero-column set, PREPARE, PING, INIT_DB) with position-dependent counts from every length class; scripted walks of 1031 and 66000 (thorough: 140000) completions of those kinds; a 5000- or 70000-byte row, every number <= 600 (1300) of quiet exchanges, then completed(2^64-1, 1). Oracle: refwire's length-encoded-integer decoding of the OK packet, and mysql_common's OkPacket. Non-trivial = a component beyond the one-byte class.", nv),
         assumptions: vec!["64-bit components are covered at the boundary lattice, not exhaustively".into()],
         bounds: json!({"lattice": nv, "zero_column_max_exhaustive": 300}),
         exhaustive: true,
@@ -492,6 +577,7 @@ pub fn build(quick: bool) -> Check {
             Box::new(ZeroCols { counts }),
             Box::new(super::aftermath::Aftermath { prop: "C14" }),
             Box::new(super::soak::QuietRuns { max_n: if quick { 600 } else { 1300 }, ends_in_completion: true }),
+            Box::new(CompletedThenFailed),
             Box::new(CompletionWalks { depth: 2 }),
             Box::new(CompletionWalks { depth: 1031 }),
             Box::new(CompletionWalks { depth: if quick { 66_000 } else { 140_000 } }),
@@ -499,6 +585,6 @@ pub fn build(quick: bool) -> Check {
             Box::new(CompletionWalks { depth: 4 }),
             Box::new(CompletionWalks { depth: if quick { 5 } else { 6 } }),
         ],
-        required: vec!["aftermath_recovered", "quiet_runs", "completion_walks", "eight_byte_lenenc", "zero_column_sets"],
+        required: vec!["aftermath_recovered", "quiet_runs", "completed_then_failed", "completion_walks", "eight_byte_lenenc", "zero_column_sets"],
     }
 }
